@@ -38,6 +38,12 @@ static Distinct D;
 static Filler *F;
 static bool thorough = false;
 static Args *AR;
+// operator>> of cards / stacks / keys allocates TMCG_MAX_{CARD,STACK,KEY}_CHARS (1.3 MB / 671 MB / 4 MB) per call, which costs
+// ~8 ms per MB under ASan.  --stream-every N runs the operator>> variant of a case only every N-th time (deterministic
+// counter; N = 1: always).  import(string) is always run.
+static unsigned stream_every = 1;
+static uint64_t stream_ctr = 0;
+static bool stream_now() { return stream_every && (stream_ctr++ % stream_every) == 0; }
 
 static void at(const std::string &cid)
 {
@@ -340,10 +346,10 @@ template<class T> static void fam_qr(bool used_all)
 				R->ok(D.fresh(fam, Tx));
 				// fresh targets
 				{ T fresh; qr_import_check(orig, Tx, fresh, 0, ctx + " into a fresh object", cid); }
-				if (Tx.size() + 2 <= TMCG_MAX_CARD_CHARS)
-				{ T fresh; qr_import_check(orig, Tx, fresh, 1, ctx + " operator>> into a fresh object", cid); }
-				else
+				if (Tx.size() + 2 > TMCG_MAX_CARD_CHARS)
 					R->counters[fam + "_longer_than_TMCG_MAX_CARD_CHARS_import_only"]++;
+				else if (stream_now())
+				{ T fresh; qr_import_check(orig, Tx, fresh, 1, ctx + " operator>> into a fresh object", cid); }
 				// used targets of other shapes (pattern 0: the whole set; other patterns: the default 1x1 and the largest)
 				std::vector<std::pair<size_t, size_t> > U = used_shapes(k, w, used_all && pattern == 0);
 				for (size_t u = 0; u < U.size(); u++)
@@ -352,7 +358,7 @@ template<class T> static void fam_qr(bool used_all)
 					T used(U[u].first, U[u].second);
 					qr_fill(used, 1, 977 + u); // garbage that differs from every pattern-0 cell position
 					R->ok(D.fresh(fam + "/used" + str(U[u].first) + "x" + str(U[u].second), Tx));
-					qr_import_check(orig, Tx, used, (pattern == 0 && (u % 5) == 4 && Tx.size() + 2 <= TMCG_MAX_CARD_CHARS) ? 1 : 0,
+					qr_import_check(orig, Tx, used, (pattern == 0 && (u % 5) == 4 && Tx.size() + 2 <= TMCG_MAX_CARD_CHARS && stream_now()) ? 1 : 0,
 						ctx + " into a used " + str(U[u].first) + "x" + str(U[u].second) + " object", cid);
 				}
 			}
@@ -380,6 +386,7 @@ static void fam_vtmf()
 			std::string ctx = "c_1=" + A[i].name + " c_2=" + A[j].name;
 			for (int mode = 0; mode < 4; mode++) // 0 fresh import, 1 fresh stream, 2 used import, 3 used stream
 			{
+				if ((mode & 1) && !stream_now()) continue;
 				VTMF_Card t;
 				if (mode >= 2) { mpz_set(t.c_1, A[(j + 5) % A.size()].z.v); mpz_set(t.c_2, A[(i + 9) % A.size()].z.v); }
 				bool ok = false, threw = false, framing = true;
@@ -409,6 +416,7 @@ static void fam_vtmf()
 			std::string Tx = exp_text(s);
 			for (int mode = 0; mode < 4; mode++)
 			{
+				if ((mode & 1) && !stream_now()) continue;
 				VTMF_CardSecret t;
 				if (mode >= 2) mpz_set(t.r, A[(i + 5) % A.size()].z.v);
 				bool ok = false, threw = false, framing = true;
@@ -504,10 +512,9 @@ template<class S> static bool stack_import(S &t, const std::string &Tx, int mode
 	catch (std::exception &e) { exc = e.what(); return false; }
 }
 
-template<class CardT> static void fam_stack_of(const std::string &enc, const std::string &shapes, unsigned stream_every)
+template<class CardT> static void fam_stack_of(const std::string &enc, const std::string &shapes)
 {
 	std::vector<size_t> sizes = stack_sizes();
-	unsigned streamc = 0;
 	for (size_t si = 0; si < sizes.size(); si++)
 	{
 		size_t n = sizes[si];
@@ -537,7 +544,7 @@ template<class CardT> static void fam_stack_of(const std::string &enc, const std
 				check_overrun(*R, "mpz-operator<<", cid);
 				for (int mode = 0; mode < 2; mode++)
 				{
-					if (mode == 1 && (Tx.size() + 2 > TMCG_MAX_STACK_CHARS || (streamc++ % stream_every) != 0)) continue;
+					if (mode == 1 && (Tx.size() + 2 > TMCG_MAX_STACK_CHARS || !stream_now())) continue;
 					TMCG_Stack<CardT> t;
 					bool framing; std::string exc;
 					bool ok = stack_import(t, Tx, mode, framing, exc);
@@ -593,10 +600,9 @@ static void make_perm(std::vector<size_t> &pi, size_t n, int kind, uint64_t seed
 	}
 }
 
-template<class SecT> static void fam_stacksecret_of(const std::string &enc, const std::string &shapes, unsigned stream_every)
+template<class SecT> static void fam_stacksecret_of(const std::string &enc, const std::string &shapes)
 {
 	std::vector<size_t> sizes = stack_sizes();
-	unsigned streamc = 0;
 	for (size_t si = 0; si < sizes.size(); si++)
 	{
 		size_t n = sizes[si];
@@ -641,7 +647,7 @@ template<class SecT> static void fam_stacksecret_of(const std::string &enc, cons
 					check_overrun(*R, "mpz-operator<<", cid);
 					for (int mode = 0; mode < 2; mode++)
 					{
-						if (mode == 1 && (Tx.size() + 2 > TMCG_MAX_STACK_CHARS || (streamc++ % stream_every) != 0)) continue;
+						if (mode == 1 && (Tx.size() + 2 > TMCG_MAX_STACK_CHARS || !stream_now())) continue;
 						TMCG_StackSecret<SecT> t;
 						bool framing; std::string exc;
 						bool ok = stack_import(t, Tx, mode, framing, exc);
@@ -720,6 +726,7 @@ template<class KeyT, class DiffF> static void key_roundtrip(const KeyT &orig, co
 		bool ok = false, threw = false, framing = true;
 		std::string exc;
 		KeyT *t = NULL;
+		if ((mode == 1 || mode == 3) && !stream_now()) continue;
 		try
 		{
 			if (mode == 4) { t = new KeyT(Tx); ok = true; }
@@ -888,25 +895,27 @@ int main(int argc, char **argv)
 	std::string used = A.get("used", "all"), shapes = A.get("shapes", "few"), enc = A.get("enc", "");
 	if (!A.only.empty() && (family == "stack" || family == "stacksecret"))
 		enc = A.only.find(":qr") != std::string::npos ? "qr" : "vtmf";
-	unsigned stream_every = (unsigned)A.geti("stream-every", 1);
+	stream_every = (unsigned)A.geti("stream-every", 1);
 	if (family == "mpz") { fam_mpz(); rep.bound = "every text length 1.." + str(MAXLEN) + " (min/max/seeded, both signs); 2^k+-1 at all limb boundaries up to 2^24400; boundary alphabet singly and in sequence"; }
 	else if (family == "qrcard") { fam_qr<TMCG_Card>(used == "all"); rep.bound = "all 320 shapes x 5-6 patterns; used targets: " + used; }
 	else if (family == "qrsecret") { fam_qr<TMCG_CardSecret>(used == "all"); rep.bound = "all 320 shapes x 5-6 patterns; used targets: " + used; }
 	else if (family == "vtmf") { fam_vtmf(); rep.bound = "all ordered pairs of the " + str(F->Along.size()) + "-value boundary alphabet x 4 modes"; }
 	else if (family == "stack")
 	{
-		if (enc == "" || enc == "vtmf") fam_stack_of<VTMF_Card>("vtmf", shapes, stream_every);
-		if (enc == "" || enc == "qr") fam_stack_of<TMCG_Card>("qr", shapes, stream_every);
-		rep.bound = "sizes 1..64, 511, 512; QR card shapes: " + shapes + "; operator>> every " + str(stream_every) + "th case";
+		if (enc == "" || enc == "vtmf") fam_stack_of<VTMF_Card>("vtmf", shapes);
+		if (enc == "" || enc == "qr") fam_stack_of<TMCG_Card>("qr", shapes);
+		rep.bound = "sizes 1..64, 511, 512; QR card shapes: " + shapes;
 	}
 	else if (family == "stacksecret")
 	{
-		if (enc == "" || enc == "vtmf") fam_stacksecret_of<VTMF_CardSecret>("vtmf", shapes, stream_every);
-		if (enc == "" || enc == "qr") fam_stacksecret_of<TMCG_CardSecret>("qr", shapes, stream_every);
+		if (enc == "" || enc == "vtmf") fam_stacksecret_of<VTMF_CardSecret>("vtmf", shapes);
+		if (enc == "" || enc == "qr") fam_stacksecret_of<TMCG_CardSecret>("qr", shapes);
 		rep.bound = "sizes 1..64, 511, 512; all permutations for n<=5; QR shapes: " + shapes;
 	}
 	else if (family == "keys") { fam_keys(); rep.bound = "6 string variants x alphabet moduli; all pairs of Blum primes < 120 and 5 seeded primes; generated keys"; }
 	else { fprintf(stderr, "unknown family %s\n", family.c_str()); return 2; }
+	if (family != "mpz" && stream_every != 1)
+		rep.bound += "; operator>> variant of a case on every " + str(stream_every) + "th occasion only (import(string) always)";
 	check_overrun(rep, "mpz-operator<<", "end-of-run");
 	rep.counters["distinct_texts"] = D.seen.size();
 	rep.finish();
